@@ -10,7 +10,7 @@ cd /verif
 export VERIF_EVIDENCE_DIR=$(mktemp -d /tmp/seed-evidence.XXXXXX)
 for p in "$@"; do
   echo "== $p"
-  ./check "$p" --tier quick 2>&1 | grep -v "^  \|^built" | grep "VIOLATION\|KNOWN\|DRIFT\|quick:\|nconclusive" | tail -8
+  ./check "$p" --tier quick 2>&1 | grep -v "^  \|^built" | grep -i "VIOLATION\|KNOWN\|DRIFT\|quick:\|inconclusive" | tail -8
   echo "exit=$?"
 done
 git -C /repo checkout -- . && git -C /repo status --porcelain
